@@ -3,9 +3,290 @@
 package main
 
 import (
+	"bytes"
+	_ "embed"
+	"encoding/json"
+	"fmt"
+	"os"
+	"os/exec"
+	"path/filepath"
+	"sort"
+	"strings"
+
 	"vh/internal/cli"
 	"vh/internal/emit"
 )
 
+//go:embed driver_main.go.txt
+var driverMain string
+
+//go:embed driver_go.mod.txt
+var driverGoMod string
+
+// the entry points the dynamic driver can reach, and whether the framework hands the
+// handler's error back to the middleware
+var dynAdapters = []struct {
+	Sig     string
+	Dir     string
+	HasErr  bool
+	ResPref string
+}{
+	{"gin/middleware.go:SentinelMiddleware", "gin", false, "g"},
+	{"echo/middleware.go:SentinelMiddleware", "echo", true, "e"},
+	{"grpc/server.go:NewUnaryServerInterceptor", "grpc", true, "/svc/us"},
+	{"grpc/server.go:NewStreamServerInterceptor", "grpc", true, "/svc/ss"},
+	{"grpc/client.go:NewUnaryClientInterceptor", "grpc", true, "/svc/uc"},
+	{"grpc/client.go:NewStreamClientInterceptor", "grpc", true, "/svc/sc"},
+}
+
+type dynCase struct {
+	ID       int    `json:"id"`
+	Adapter  string `json:"adapter"`
+	Blocked  bool   `json:"blocked"`
+	Handler  string `json:"handler"`
+	Fallback bool   `json:"fallback"`
+	Resource string `json:"resource"`
+}
+
+type dynObs struct {
+	dynCase
+	HandlerCalls  int   `json:"handler_calls"`
+	FallbackCalls int   `json:"fallback_calls"`
+	Rejected      int   `json:"rejected"`
+	PanicOut      bool  `json:"panic_out"`
+	Pass          int64 `json:"pass"`
+	Block         int64 `json:"block"`
+	Complete      int64 `json:"complete"`
+	Error         int64 `json:"error"`
+	Gauge         int32 `json:"gauge"`
+	NodeMissing   bool  `json:"node_missing"`
+}
+
+func goEnv() []string {
+	env := os.Environ()
+	return append(env, "GOFLAGS=-mod=mod", "GOPROXY=off", "GOSUMDB=off", "GOTOOLCHAIN=local", "CGO_ENABLED=0")
+}
+
+// prepareDriver writes the driver module: main.go, go.mod bound to the tree under test,
+// go.sum assembled from the tree's own go.sum files, and verbatim copies of the adapter
+// packages (the adapter modules pin the released sentinel-golang v1.0.2; copying their
+// non-test sources into the driver module compiles them against the working tree instead)
+func prepareDriver(dir, repo string) (string, error) {
+	if err := os.RemoveAll(filepath.Join(dir, "internal")); err != nil {
+		return "", err
+	}
+	if err := os.MkdirAll(dir, 0o755); err != nil {
+		return "", err
+	}
+	if err := os.WriteFile(filepath.Join(dir, "main.go"), []byte(driverMain), 0o644); err != nil {
+		return "", err
+	}
+	if err := os.WriteFile(filepath.Join(dir, "go.mod"), []byte(strings.ReplaceAll(driverGoMod, "{repo}", repo)), 0o644); err != nil {
+		return "", err
+	}
+	sums := map[string]bool{}
+	for _, f := range []string{"go.sum", "pkg/adapters/gin/go.sum", "pkg/adapters/echo/go.sum", "pkg/adapters/grpc/go.sum"} {
+		b, err := os.ReadFile(filepath.Join(repo, f))
+		if err != nil {
+			continue
+		}
+		for _, l := range strings.Split(string(b), "\n") {
+			if strings.TrimSpace(l) != "" {
+				sums[l] = true
+			}
+		}
+	}
+	var lines []string
+	for l := range sums {
+		lines = append(lines, l)
+	}
+	sort.Strings(lines)
+	if err := os.WriteFile(filepath.Join(dir, "go.sum"), []byte(strings.Join(lines, "\n")+"\n"), 0o644); err != nil {
+		return "", err
+	}
+	for _, a := range []string{"gin", "echo", "grpc"} {
+		dst := filepath.Join(dir, "internal", a+"adapter")
+		if err := os.MkdirAll(dst, 0o755); err != nil {
+			return "", err
+		}
+		files, _ := filepath.Glob(filepath.Join(repo, "pkg", "adapters", a, "*.go"))
+		for _, f := range files {
+			if strings.HasSuffix(f, "_test.go") {
+				continue
+			}
+			b, err := os.ReadFile(f)
+			if err != nil {
+				return "", err
+			}
+			if err := os.WriteFile(filepath.Join(dst, filepath.Base(f)), b, 0o644); err != nil {
+				return "", err
+			}
+		}
+	}
+	bin := filepath.Join(dir, "c19driver")
+	cmd := exec.Command("go", "build", "-o", bin, ".")
+	cmd.Dir = dir
+	cmd.Env = goEnv()
+	if out, err := cmd.CombinedOutput(); err != nil {
+		return "", fmt.Errorf("%v: %s", err, out)
+	}
+	return bin, nil
+}
+
+func b2n(b bool) int {
+	if b {
+		return 1
+	}
+	return 0
+}
+
 func dynamicLeg(a cli.Args, repo string, t *transOut, rep *emit.Report, distinct *emit.Distinct) {
+	verbose := a.Only >= 0
+	bin, err := prepareDriver(filepath.Join(a.Out, "driver"), repo)
+	if err != nil {
+		msg := err.Error()
+		if len(msg) > 1500 {
+			msg = msg[len(msg)-1500:]
+		}
+		rep.Fail(dynBase-1, "dynamic_driver", "dyn:driver-build-failed", "the gin/echo/grpc adapters of the tree under test do not build into the driver: "+msg, nil)
+		rep.Notes = append(rep.Notes, "dynamic driver did not build")
+		return
+	}
+	irOf := map[string]*entryPoint{}
+	for _, ep := range t.EntryPoints {
+		irOf[ep.File+":"+ep.Func] = ep
+	}
+	var cases []dynCase
+	id := dynBase
+	for _, ad := range dynAdapters {
+		for _, blocked := range []bool{false, true} {
+			for _, h := range []string{"ok", "err", "panic"} {
+				for _, fb := range []bool{false, true} {
+					c := dynCase{ID: id, Adapter: ad.Sig, Blocked: blocked, Handler: h, Fallback: fb,
+						Resource: fmt.Sprintf("%s%d", ad.ResPref, id)}
+					id++
+					if a.Only >= 0 && a.Only != c.ID {
+						continue
+					}
+					cases = append(cases, c)
+				}
+			}
+		}
+	}
+	if len(cases) == 0 {
+		return
+	}
+	in, _ := json.Marshal(cases)
+	cmd := exec.Command(bin)
+	cmd.Stdin = bytes.NewReader(in)
+	cmd.Env = goEnv()
+	var stderr bytes.Buffer
+	cmd.Stderr = &stderr
+	out, err := cmd.Output()
+	var obs []dynObs
+	if err == nil {
+		err = json.Unmarshal(out, &obs)
+	}
+	if err != nil || len(obs) != len(cases) {
+		rep.Fail(dynBase-1, "dynamic_driver", "dyn:driver-run-failed", fmt.Sprintf("driver failed: %v: %s", err, stderr.String()), nil)
+		return
+	}
+
+	var sh *emit.Shards
+	if !a.Search && a.Only < 0 {
+		sh, err = emit.NewShards(a.Out, "Corr.Run_C19", 1, "Local Open Scope nat_scope.\n")
+		if err != nil {
+			fmt.Fprintln(os.Stderr, err)
+			os.Exit(2)
+		}
+	}
+	hasErr := map[string]bool{}
+	for _, ad := range dynAdapters {
+		hasErr[ad.Sig] = ad.HasErr
+	}
+	for i, o := range obs {
+		c := cases[i]
+		rep.Evaluations++
+		rep.Count("dynamic/cases", 1)
+		rep.Count("dynamic/"+strings.SplitN(c.Adapter, "/", 2)[0], 1)
+		rep.Count(fmt.Sprintf("dynamic/blocked=%v", c.Blocked), 1)
+		rep.Count("dynamic/handler="+c.Handler, 1)
+		rep.Count(fmt.Sprintf("dynamic/fallback=%v", c.Fallback), 1)
+		if o.Pass+o.Block > 0 || o.Rejected > 0 {
+			distinct.Add(fmt.Sprintf("dyn|%s|%v|%s|%v", c.Adapter, c.Blocked, c.Handler, c.Fallback))
+		}
+		if verbose {
+			js, _ := json.Marshal(o)
+			fmt.Printf("dynamic case %d: %s\n", c.ID, js)
+		}
+		fail := func(clause, detail string) {
+			sig := "dyn:" + c.Adapter + ":" + clause
+			rep.Fail(c.ID, clause, sig, fmt.Sprintf("%s blocked=%v handler=%s fallback=%v: %s (observed %+v)", c.Adapter, c.Blocked, c.Handler, c.Fallback, detail, o), o)
+			if verbose {
+				fmt.Printf("MONITOR-FAIL clause=%s signature=%s %s\n", clause, sig, detail)
+			}
+		}
+		// the property, stated on what was observed
+		if o.NodeMissing {
+			fail("entry_first", "no statistic node for the resource: Entry was never requested")
+			continue
+		}
+		if (o.Block == 1) != c.Blocked || o.Pass+o.Block != 1 {
+			fail("entry_first", fmt.Sprintf("expected exactly one Entry (%s), node recorded pass=%d block=%d", map[bool]string{true: "blocked", false: "admitted"}[c.Blocked], o.Pass, o.Block))
+		}
+		if c.Blocked {
+			if o.HandlerCalls != 0 {
+				fail("blocked_no_handler", "handler invoked although the request was blocked")
+			}
+			if o.FallbackCalls+o.Rejected != 1 || (c.Fallback && o.FallbackCalls != 1) {
+				fail("reject_iff_blocked", "blocked request did not produce exactly the configured fallback / the default rejection")
+			}
+			if o.Complete != 0 {
+				fail("exit_once", "a blocked request recorded a completion")
+			}
+		} else {
+			if o.HandlerCalls != 1 {
+				fail("handler_once", fmt.Sprintf("handler invoked %d times", o.HandlerCalls))
+			}
+			if o.FallbackCalls+o.Rejected != 0 {
+				fail("reject_iff_blocked", "admitted request was rejected")
+			}
+			if o.Complete != 1 {
+				fail("exit_once", fmt.Sprintf("admitted request recorded %d completions", o.Complete))
+			}
+			if c.Handler == "err" && hasErr[c.Adapter] && o.Error != 1 {
+				fail("err_traced", "the handler's error was not recorded on the entry")
+			}
+		}
+		if o.Gauge != 0 {
+			fail("exit_once", fmt.Sprintf("in-flight gauge is %d after the request", o.Gauge))
+		}
+		if o.PanicOut != (!c.Blocked && c.Handler == "panic") {
+			fail("no_spurious_panic", fmt.Sprintf("panic_out=%v", o.PanicOut))
+		}
+
+		// correspondence case: the same observation against the model's trace of the regenerated IR
+		ep, ok := irOf[c.Adapter]
+		if sh != nil && ok {
+			h := map[string]string{"ok": "HOk", "err": "HErr", "panic": "HPanic"}[c.Handler]
+			flags := make([]string, len(ep.Flags))
+			for k := range flags {
+				flags[k] = "false"
+			}
+			term := fmt.Sprintf("Dyn (%d)%%Z %s\n  %s\n  (mkEnv %s %s %s %s) (mkObs %d %d %d %d %d %d %s)",
+				c.ID, emit.Str(c.Adapter), ep.Coq, emit.B(c.Blocked), h, emit.B(c.Fallback), emit.List(flags),
+				o.Pass+o.Block, o.HandlerCalls, o.FallbackCalls, o.Rejected, o.Complete, o.Error, emit.B(o.PanicOut))
+			sh.Add(0, term)
+			rep.CorrCases++
+			rep.CaseInputs[fmt.Sprint(c.ID)] = c
+		} else if sh != nil {
+			rep.Notes = append(rep.Notes, "no IR for "+c.Adapter+" (entry point renamed?)")
+		}
+		if i < 2 {
+			rep.Sample(o)
+		}
+	}
+	if sh != nil {
+		rep.Shards = sh.Close()
+	}
 }
